@@ -285,8 +285,11 @@ theorem at_star_field_structure (env : Env) (pre post : Str) :
     rw [h1]
     cases hargs : env.args with
     | nil =>
-      simp [dqStep, arrayExp, Expansion.ofPiece, intersperseFlat, Piece.mkUnsplit, glue, atGlue, fieldStr, Piece.str]
+      cases pre <;> cases post <;>
+        simp [dqStep, arrayExp, Expansion.ofPiece, intersperseFlat, Piece.mkUnsplit, glue, atGlue, fieldStr, Piece.str,
+          dropNullAt, sawEmptyList, nullOnly]
     | cons a r =>
+      rw [dropNullAt_not_saw _ _ (by simp [sawEmptyList, arrayExp, Expansion.ofPiece])]
       have h2 : dqStep env.joiner [[Piece.unsplit pre]] (arrayExp (a :: r) false) =
           [Piece.unsplit pre, Piece.unsplit a] :: r.map (fun x => [Piece.unsplit x]) := by
         simp [dqStep, arrayExp, Piece.mkUnsplit, glue, Function.comp_def]
@@ -301,6 +304,25 @@ theorem at_star_field_structure (env : Env) (pre post : Str) :
 example : (basicExpand { args := ["a".toList, [], "b c".toList] }
     [.dq [.base (.text "x".toList), .base (.param (.allPos false)), .base (.text "y".toList)]]).fields.map fieldStr
     = ["xa".toList, [], "b cy".toList] := (at_star_field_structure _ _ _).2
+
+/-- **empty_at_with_null_rest_removed** (was finding C05-5 `empty_at_in_quotes_with_null_rest_keeps_field`, repaired in
+/repo 14c5f22): without positional parameters, a double-quoted string made of `$@` and variables that are all empty
+yields NO argument (as `"$@"` alone) — whatever IFS, the options and the directory are. -/
+theorem empty_at_with_null_rest_removed (env : Env) (opts : Opts) (names : List Str) (e : Str)
+    (hargs : env.args = []) (he : lookup env.vars e = some []) :
+    fullExpand env opts names [.dq [.base (.param (.allPos false)), .base (.param (.named e))]] = some [] ∧
+    fullExpand env opts names [.dq [.base (.param (.named e)), .base (.param (.allPos false))]] = some [] := by
+  constructor <;>
+    simp [fullExpand, basicExpand, coalesce, glue, expandWP, expandA1, expandA0, expandParam, hargs, he, expandDQ,
+      dqStep, arrayExp, Expansion.ofStr, Expansion.ofPiece, intersperseFlat, Piece.mkUnsplit, dropNullAt, sawEmptyList,
+      nullOnly, Piece.str, splitFields, splitGo, globFields]
+
+example : fullExpand { vars := [("e".toList, [])] } { nullglob := true } ["a".toList]
+    [.dq [.base (.param (.allPos false)), .base (.param (.named "e".toList))]] = some [] :=
+  (empty_at_with_null_rest_removed _ _ _ _ rfl rfl).1
+
+/-- …while a separately quoted null next to it still counts: `"$@"""` is one empty argument -/
+example : fullExpand {} {} [] [.dq [.base (.param (.allPos false))], .dq []] = some [[]] := by decide
 
 /-! ## an empty quoted piece is transparent to pathname expansion -/
 
